@@ -151,7 +151,7 @@ def excl_cancelled(tr, path, missing):
     return None
 
 
-def run_cover(check, rule, visitor, targets, exclusions, min_overrides, block_override_ok=None, key_prefix=None):
+def run_cover(check, rule, visitor, targets, exclusions, min_overrides, block_override_ok=None, ignore_missing=None):
     """TRAV-COVER + TRAV-ROOT over all overrides of `visitor`."""
     prog = check.prog
     graph = AdtGraph(prog.adts)
@@ -189,6 +189,9 @@ def run_cover(check, rule, visitor, targets, exclusions, min_overrides, block_ov
                 check.bad(rule, "%s/%s/unanalysable" % (rule, short(f)), where, "cannot enumerate paths: %s" % "; ".join(p.unknown))
                 continue
             ok, missing = tr.covered(p, root_ap, node_ty, targets, tr.visitor_ty_name())
+            if not ok and ignore_missing is not None:
+                missing = [m for m in missing if not ignore_missing(m)]
+                ok = not missing
             if ok:
                 check.ok(rule, "%s/%s/path" % (rule, short(f)), where, "all children visited when %s" % condstr)
                 continue
